@@ -11,10 +11,13 @@ def run(tier, seed, work, replay):
     res, evs = tablecheck.run_table(
         "C12", tier, seed, work, "KMTokens", ["MC_KMTokens_C12.cfg"], "Gen_KMTokens", "Gen_KMTokens_C12.cfg",
         "Trace_KMTokens", "Trace_KMTokens.cfg", sig,
-        lambda e: tuple(sorted(e["case"].items())) + (e["out"]["released"],))
+        lambda e: tuple(sorted(e["case"].items())) + (e["out"]["released"],),
+        # what userinfo answers to does not depend on the redemption parameters of the row: one signature per leak set
+        sig_full=lambda ev, guards: ({"leak": sorted(ev["out"].get("leak", []))} if guards == ["G_C12_NothingElse"]
+                                     else dict(sig(ev), audparam=ev["case"].get("audparam", "none"))))
     res.cov["rule"] = ("full product client A/B x caller x secret x verifier x challenge method x redirect x code state x "
-                       "credential placement (3240 rows, TLC-enumerated); each row = real authorize + real token request, "
-                       "released tokens decoded, verified under the served JWKS and used at userinfo")
+                       "credential placement x extra audience requested (6480 rows, TLC-enumerated); each row = real authorize + real token request, "
+                       "released tokens decoded, verified under the served JWKS and used at userinfo; the code as seen by the browser, the ID token and a session cookie are presented to userinfo too (nothing else names a user)")
     res.cov["exhaustive"] = True
     res.cov["released"] = sum(1 for e in evs if e["out"]["released"])
     res.assumptions = ["TLC + Json module", "go-jose for decoding released tokens", "client secrets compared by the server as configured"]
